@@ -17,6 +17,7 @@ A program is a list of dict records ("lines"):
   unitdef  dict(k='unitdef', name=str, text=str)         # "$unit name = text"
   blank    dict(k='blank', text=str)                     # '' or only blanks
   comment  dict(k='comment', indent=int, text=str)       # comment-only line at an arbitrary indentation
+a def may carry hide_unit=True: its unit is not written (it comes from the node injected by the literal text);
 every record may carry tc=str (trailing comment) and an explicit 'indent' (number of blanks); otherwise the
 indentation is computed from the depth by `layout`.
 LIT = dict(text=str, value=python value or None, kind='bool|int|float|str|none|word', block=None|[content lines])
@@ -55,7 +56,39 @@ UNITS = {
     "eV":   (Fraction(1602176634, 10 ** 28), "energy"),
     "s":    (Fraction(1), "time"),
     "[cu]": (Fraction(1, 2), "length"),          # custom unit, defined in the program by CU_LINE
+    # affine units: kelvin = (x + OFFSETS[u]) * factor
+    "K":    (Fraction(1), "temperature"),
+    "Cel":  (Fraction(1), "temperature"),
+    "degF": (Fraction(5, 9), "temperature"),
+    # logarithmic level of a power ratio: bel = log10(PR); only the exact pairs of LEVEL_PR are ever generated
+    "B":    (Fraction(1), "level"),
+    "dB":   (Fraction(1, 10), "level"),
+    "PR":   (None, "level"),
 }
+OFFSETS = {"Cel": Fraction(27315, 100), "degF": Fraction(45967, 100)}
+LEVEL_PR = {Fraction(0): Fraction(1), Fraction(-2): Fraction(1, 100), Fraction(4): Fraction(10000),
+            Fraction(2): Fraction(100)}        # bel -> power ratio, exact powers of ten
+
+
+def convert_exact(x, unit_from, unit_to):
+    """Fraction x written in unit_from, expressed in unit_to (same dimension)"""
+    if unit_from == unit_to:
+        return x
+    if UNITS[unit_from][1] == "level":
+        if unit_from == "PR":
+            inv = {v: k for k, v in LEVEL_PR.items()}
+            if x not in inv:
+                raise ValueError("generator: power ratio %r has no exact level" % (x,))
+            bel = inv[x]
+        else:
+            bel = x * UNITS[unit_from][0]
+        if unit_to == "PR":
+            if bel not in LEVEL_PR:
+                raise ValueError("generator: level %r B has no exact power ratio" % (bel,))
+            return LEVEL_PR[bel]
+        return bel / UNITS[unit_to][0]
+    base = (x + OFFSETS.get(unit_from, 0)) * UNITS[unit_from][0]
+    return base / UNITS[unit_to][0] - OFFSETS.get(unit_to, 0)
 CU_LINE = dict(k="unitdef", name="cu", text="0.5 m")
 
 
@@ -105,12 +138,14 @@ def _indent_for(stack, d, widths, per_parent):
     return pind + w
 
 
-def render(prog, widths=(2, 2, 2, 2), per_parent=None):
+def render(prog, widths=(2, 2, 2, 2), per_parent=None, base=0):
+    """base: number of blanks put in front of EVERY node / group / property line (uniform base indentation of the
+    text; block content, table content and comment-only lines keep their own columns)"""
     ind = layout(prog, widths, per_parent)
     out = []
     for ln, n in zip(prog, ind):
         k = ln["k"]
-        sp = " " * n
+        sp = " " * (n + base)
         tc = ("   # " + ln["tc"]) if ln.get("tc") is not None else ""
         if k == "blank":
             out.append(ln["text"])
@@ -131,7 +166,7 @@ def render(prog, widths=(2, 2, 2, 2), per_parent=None):
             head = sp + ln["name"]
             if ln.get("type"):
                 head += " " + ln["type"] + (ln.get("dims") or "")
-            unit = (" " + ln["unit"]) if ln.get("unit") else ""
+            unit = (" " + ln["unit"]) if (ln.get("unit") and not ln.get("hide_unit")) else ""
             L = ln["lit"]
             if L.get("block") is not None:
                 out.append(head + ' = """')
@@ -232,8 +267,7 @@ def _convert(v, exact, unit_from, unit_to):
         return None
     if isinstance(v, list):
         return [_convert(x, e, unit_from, unit_to) for x, e in zip(v, exact)]
-    f = UNITS[unit_from][0] / UNITS[unit_to][0]
-    return exact * f                      # a Fraction; the caller decides how to compare
+    return convert_exact(exact, unit_from, unit_to)       # a Fraction; the caller decides how to compare
 
 
 def interpret(prog):
